@@ -135,7 +135,10 @@ func hdr(tag byte, n int, class int) []byte {
 	if (class <= 1) && n < 256 {
 		return []byte{tag, 0x81, byte(n)}
 	}
-	return []byte{tag, 0x82, byte(n >> 8), byte(n)}
+	if n < 65536 {
+		return []byte{tag, 0x82, byte(n >> 8), byte(n)}
+	}
+	return []byte{tag, 0x83, byte(n >> 16), byte(n >> 8), byte(n)}
 }
 
 func wrap(tag byte, class int, parts ...[]byte) []byte {
